@@ -56,6 +56,11 @@ class Evaluator:
         if isinstance(e, ast.Name):
             return self.prog.const(self.module, e.id)
         if isinstance(e, ast.Attribute):
+            # an object bound in the environment wins over class-level constants
+            if isinstance(e.value, ast.Name) and e.value.id in self.env:
+                base = self.env[e.value.id]
+                if hasattr(base, "__dict__") and not isinstance(base, type) and e.attr in vars(base):
+                    return vars(base)[e.attr]
             try:
                 return self.prog.const_eval(e, self.module, self.cls)
             except Unknown:
